@@ -551,6 +551,23 @@ fn vis_s(tcx: TyCtxt<'_>, did: DefId) -> String {
     }
 }
 
+struct PromConsts<'a, 'tcx> {
+    cx: &'a Cx<'tcx>,
+    out: Vec<String>,
+}
+
+impl<'a, 'tcx> rustc_middle::mir::visit::Visitor<'tcx> for PromConsts<'a, 'tcx> {
+    fn visit_const_operand(&mut self, c: &ConstOperand<'tcx>, _l: Location) {
+        let mut s = String::new();
+        s.push('[');
+        json::str(&mut s, &ty_s(c.const_.ty()));
+        s.push(',');
+        const_val(self.cx, c.const_, &mut s);
+        s.push(']');
+        self.out.push(s);
+    }
+}
+
 pub fn dump<'tcx>(tcx: TyCtxt<'tcx>, out: &mut Out) {
     rustc_middle::ty::print::with_no_trimmed_paths!({
         let mut keys: Vec<_> = tcx.mir_keys(()).iter().copied().collect();
@@ -616,6 +633,19 @@ pub fn dump<'tcx>(tcx: TyCtxt<'tcx>, out: &mut Out) {
                 }
             }
             o.push_str(&format!(",\"nargs\":{}", body.arg_count));
+            // constants of the promoted bodies (`&"lit"`, `&[..]` temporaries): prom[i] = constants of promoted[i]
+            o.push_str(",\"prom\":[");
+            for (pi, pb) in tcx.promoted_mir(did).iter().enumerate() {
+                if pi > 0 {
+                    o.push(',');
+                }
+                let mut kv = PromConsts { cx: &cx, out: Vec::new() };
+                rustc_middle::mir::visit::Visitor::visit_body(&mut kv, pb);
+                o.push('[');
+                o.push_str(&kv.out.join(","));
+                o.push(']');
+            }
+            o.push(']');
             // locals
             o.push_str(",\"locals\":[");
             for (i, d) in body.local_decls.iter().enumerate() {
